@@ -9,6 +9,6 @@ for d in seeded/C*-*/; do id=$(basename $d); p=${id%%-*};
   done
 done
 for f in seeded/_fix_reverts/*.diff; do id=$(basename $f .diff); 
-  case $id in D1-*) ps="C20 C14";; D9-*) ps="C20";; D6-*) ps="C11 C14";; D2-*) ps="C05 C02";; D8-*) ps="C12";; D3-*) ps="C16";; D5-*) ps="C02";; D4-*) ps="C15";; D11-*) ps="C14 C01";; D12-*) ps="C19";; esac
+  case $id in D1-*) ps="C20 C14";; D9-*) ps="C20";; D6-*) ps="C11 C14";; D2-*) ps="C05 C02";; D8-*) ps="C12";; D3-*) ps="C16";; D5-*) ps="C02";; D4-*) ps="C15";; D11-*) ps="C14 C01";; D12-*) ps="C19";; D14-*) ps="C06";; esac
   for p in $ps; do r=$(./trymut.sh $f $p quick 2>&1 | grep -E "finding key|MUTANT-RESULT|does not apply" | tr '\n' ' '); echo "$id $p :: $r" | tee -a $out; done
 done
